@@ -29,6 +29,17 @@ def sp_allocated(eng, st, x):
     return VBool(st.is_alloc(x.t))
 
 
+@specfn('new_object')
+def sp_new_object(eng, st, x):
+    """x (evaluated now) did not exist when the function was entered"""
+    from pv.values import VBool
+    from pv.state import ARR_II  # noqa: F401
+    al0 = eng.init_heap.get('$alloc')
+    if al0 is None:
+        al0 = st.arr('$alloc', z3.ArraySort(I, z3.BoolSort()))
+    return VBool(z3.Not(z3.Select(al0, x.t)))
+
+
 @specfn('cur_mtime')
 def sp_cur(eng, st, p):
     return VInt(_cur(p.t))
